@@ -387,6 +387,27 @@ def eq_pair(rng, cls, lk):
              else history(rng, cls, lk, maxops=10, reject_p=0.0, sizes=(n,))).split(':', 1)[1].strip()
     return 'EQ %s %s %d : %s | %s' % (cls, lk, n, a, b)
 
+def eq_big(rng, cls, lk):
+    """two graphs of 36-48 vertices with a hub of 33 or more neighbours that is not vertex 0 (so that it has lower-numbered neighbours),
+    built in different orders: equal, or differing in exactly one pair / one value"""
+    und = cls.startswith('U'); multi = cls in ('DM', 'UM'); weighted = cls in ('DW', 'UW')
+    n = rng.randint(36, 48); h = rng.randrange(1, n)
+    key = lambda i, j: (min(i, j), max(i, j)) if und else (i, j)
+    val = lambda: rng.randint(1, 3) if multi else rng.choice([-4, -1, 0, 2, 6]) if weighted else rng.randint(0, 3)
+    target = {}
+    for v in rng.sample(range(n), rng.randint(33, n - 1)):
+        target[key(h, v) if rng.random() < 0.7 or und else key(v, h)] = val()
+    for _ in range(rng.randint(0, 12)): target[key(rng.randrange(n), rng.randrange(n))] = val()
+    add = lambda i, j, v: ('MA %d %d %d 0' % (i, j, v)) if multi else ('WA %d %d %d 0' % (i, j, v)) if weighted else ('A %d %d %d 0' % (i, j, v))
+    def build(t):
+        ks = list(t); rng.shuffle(ks)
+        return ' ; '.join(add(*((k[1], k[0]) if und and rng.random() < 0.5 else k), t[k]) for k in ks)
+    t2 = dict(target); how = rng.random()
+    if how < 0.5: pass
+    elif how < 0.75: t2.pop(rng.choice(sorted(t2)))
+    elif lk != 'none': k = rng.choice(sorted(t2)); t2[k] = t2[k] + 1 if (multi or weighted) else (t2[k] + 1) % 4
+    return 'EQ %s %s %d : %s | %s' % (cls, lk, n, build(target), build(t2))
+
 def coq_term_eq(case):
     head, body = case.split(':', 1)
     _, cls, lk, n = head.split()
